@@ -512,7 +512,7 @@ fn update_family<T: ColumnType + 'static>(case: &Value) -> Value {
         v
     };
     // verdict of every record of the original file against the same database (Runner::run per record,
-    // no retry clauses in the generated files that use this), up to the first halt of each file level
+    // no retry clauses in the generated files that use this), up to the first halt
     if case.get("judge_before").and_then(|b| b.as_bool()).unwrap_or(false) {
         if let Ok(Ok(rs)) = &before {
             let shared = make_shared(case);
@@ -520,15 +520,17 @@ fn update_family<T: ColumnType + 'static>(case: &Value) -> Value {
             let mut runner = Runner::new(MockMaker::<T>::new(shared.clone()));
             configure(case, &mut runner);
             let mut verdicts = vec![];
-            let mut halted: Vec<bool> = vec![false];
+            // "after halt" is what the property says: every record after the first halt of the flattened script, in whichever
+            // file it lies (a run stops there).  An earlier version of this oracle scoped the halt per file, copying the
+            // updater's stack of flags, and so hid defect D18.
+            let mut halted = false;
             for r in rs.iter() {
                 match r {
-                    Record::Injected(Injected::BeginInclude(_)) => { halted.push(false); verdicts.push(json!("marker")); continue; }
-                    Record::Injected(Injected::EndInclude(_)) => { halted.pop(); verdicts.push(json!("marker")); continue; }
+                    Record::Injected(Injected::BeginInclude(_)) | Record::Injected(Injected::EndInclude(_)) => { verdicts.push(json!("marker")); continue; }
                     _ => {}
                 }
-                if *halted.last().unwrap() { verdicts.push(json!("after-halt")); continue; }
-                if let Record::Halt { .. } = r { *halted.last_mut().unwrap() = true; verdicts.push(json!("halt")); continue; }
+                if halted { verdicts.push(json!("after-halt")); continue; }
+                if let Record::Halt { .. } = r { halted = true; verdicts.push(json!("halt")); continue; }
                 let res = catch_unwind(AssertUnwindSafe(|| runner.run(r.clone())));
                 verdicts.push(match res {
                     Ok(Ok(o)) => json!(["ok", output_json(&o)]),
